@@ -21,23 +21,33 @@ PROP = {
                       "observed status of every client after every barrier is checked to be a history of the model (all interleavings of "
                       "internal actions explored, extracted model, sample re-checked in the kernel); plus an independent oracle on every "
                       "recorded history (exclusion, durability, freshness by intervals, no request pending after all guards are released), "
-                      "also on un-barriered race cases with H1 poll deferral and on a multi-thread run of the F5 race.",
+                      "also on un-barriered race cases with H1 poll deferral, on CANCELLATION cases -- pending read()/write() futures are "
+                      "dropped where they stand (at a quiescent point in barriered 'cbar' cases, after a few yields under H1 deferral in race "
+                      "cases) while other clients hold guards or wait, and further requests follow; a cancelled request must be without effect: "
+                      "the same exclusion / durability / freshness / progress rules on the remaining events; oracle only, the model has no "
+                      "cancellation -- and on a multi-thread run of the F5 race.",
         "level_note": "Trusted: Coq kernel (+vm_compute), extraction (ExtrOcamlBasic only) and mrun glue (cross-checked in-kernel on a sample), "
                       "harness, its transport and the paused-clock quiescence barrier. Assumed, not modelled: the Tokio RwLock is FIFO-fair "
                       "(modelled as a queue with a separate grant action), mpsc/oneshot/watch deliver in order and eventually; the remote "
                       "transport of requests, values, drop notifications and invalidations is abstracted to the nondeterministic delay of "
                       "the corresponding internal action (a remote drop notification is merged with the action that drops the copy); the "
-                      "owner lives for the whole run (no into_inner / Owner drop), pending lock futures are not cancelled, one outstanding "
-                      "request or guard per client, no connection failure. Progress of the code as it is: known finding F5 (open).",
-        "trivial_sig": r"^(bar|race):k\d+s?:r[01]w0c0d0",
+                      "owner lives for the whole run (no into_inner / Owner drop), one outstanding request or guard per client, no connection "
+                      "failure. The MODEL and the theorems have no cancellation of pending lock futures: cancellation is exercised on the real "
+                      "code only and judged by the history oracle (no model comparison for those cases). Progress of the code as it is: known finding F5 (open).",
+        "trivial_sig": r"^(bar|cbar|race):k\d+s?:r[01]w0c0d0",
         "rule": "cases from one PRNG (VERIF_SEED): 2-4 client actors over 1-4 caches (cache 0 = local clones, others = locks moved to a second "
                 "endpoint), 4-18 commands (acquire read / acquire write / release / commit fresh value / drop) mostly valid for the guessed "
                 "client status; 3 of 4 cases barriered and accepted against the model, every 4th an un-barriered race (yields, optional "
-                "barriers, H1 deferral seed) judged by the oracle only; every 16th case is the F5 witness script of Props/C17.v (readers on "
+                "barriers, H1 deferral seed) judged by the oracle only; every 8th case ('cbar', kind 3) is barriered WITH cancellations and "
+                "half of the race cases contain cancellations: a coarse simulation of the request queue in the generator tells which "
+                "requests are probably pending, those are cancelled (command 6: the client's read()/write() future is dropped) 2 times out "
+                "of 3, holders of guards go on otherwise, new requests of any client follow; 1 in 12 releases is preceded by a cancellation "
+                "that comes too late (skipped); cancellation cases are judged by the oracle only; every 16th case is the F5 witness script of Props/C17.v (readers on "
                 "the local or a remote cache); every 64th a multi-thread run of the F5 race; a case is non-trivial unless it has at most one "
                 "read and no write; distinct = distinct input",
         "assumptions": [
-            "owner alive for the whole case; pending lock futures are never cancelled; no connection fault",
+            "owner alive for the whole case; no connection fault",
+            "theorems and model acceptance: pending lock futures are never cancelled (cancellation cases run on the real code and are judged by the oracle only)",
             "default chmux configuration (large receive buffers) on the remote connection",
         ],
     }
